@@ -326,3 +326,45 @@ pub fn sample_table2(f: impl Fn(Option<bool>, Option<bool>) -> Option<bool>) -> 
     for l in opts() { for r in opts() { s.push(match f(l, r) { Some(true) => 'T', Some(false) => 'F', None => '-' }); } }
     s
 }
+
+/// Entry point shared by the per-property binaries `src/bin/cNN.rs`.
+/// usage: cNN gen <quick|thorough> <seed> <out-file>      (env VERIF_CORPUS, VERIF_CASE_CAP)
+///        cNN replay <case line…>                          (re-runs one case, prints the fresh line)
+pub fn harness_main(gen: fn(Tier, &mut Rng64, &mut Out), run: fn(&str, &[String], &mut Out)) {
+    std::panic::set_hook(Box::new(|_| {})); // panics are outcomes, not noise
+    let args: Vec<String> = std::env::args().collect();
+    if args.len() >= 5 && args[1] == "gen" {
+        let tier = if args[2] == "thorough" { Tier::Thorough } else { Tier::Quick };
+        let seed: u64 = args[3].parse().expect("seed");
+        let cap: u64 = std::env::var("VERIF_CASE_CAP").ok().and_then(|s| s.parse().ok()).unwrap_or(u64::MAX);
+        let mut out = Out::new(&args[4], cap);
+        let mut rng = Rng64(seed ^ 0x5DEECE66D);
+        // minimised past failures run first
+        if let Ok(path) = std::env::var("VERIF_CORPUS") {
+            if let Ok(text) = std::fs::read_to_string(&path) {
+                for line in text.lines() {
+                    let line = line.trim();
+                    if line.is_empty() || line.starts_with('#') { continue; }
+                    let inputs = split_inputs(line);
+                    run(&inputs[0], &inputs[1..], &mut out);
+                }
+            }
+        }
+        gen(tier, &mut rng, &mut out);
+        let n = out.finish();
+        println!("cases {}", n);
+    } else if args.len() >= 3 && args[1] == "replay" {
+        let line = args[2..].join(" ");
+        let inputs = split_inputs(&line);
+        let mut out = Out::new("/dev/stdout", u64::MAX);
+        run(&inputs[0], &inputs[1..], &mut out);
+        out.finish();
+    } else {
+        eprintln!("usage: gen <quick|thorough> <seed> <out-file> | replay <case line>");
+        std::process::exit(2);
+    }
+}
+/// the input part of a case line (everything before ` =>`), split into fields
+pub fn split_inputs(line: &str) -> Vec<String> {
+    line.split(" =>").next().unwrap().split(' ').filter(|s| !s.is_empty()).map(|s| s.to_string()).collect()
+}
